@@ -58,7 +58,7 @@ def evaluate(spec):
               "big-block" if any(x[2] > 60000 for x in (cont.get("extra") or [])) else "small-blocks", "snaplen:%d" % cont.get("snaplen", 0),
               "opt-order:" + ("offset,resol" if cont.get("offset_first") else "resol,offset"), "blocks-before-idb:%d" % len(cont.get("extra_pre") or []),
               "interfaces:%d%s" % (cont.get("ifaces", 1), "-late" if cont.get("late_idb") and cont.get("ifaces", 1) > 1 else ""),
-              "idle-interfaces:%d" % len(cont.get("idle_ifaces") or []),
+              "idle-interfaces:%d" % len(cont.get("idle_ifaces") or []), "first-interface:" + ("ethernet" if cont.get("idle_first") is None else "idle-linktype-%d" % cont["idle_first"]),
               "keys:" + ("file" if not cont.get("keys") else "dsb-only" if not cont["keys"].get("file") else "file+dsb")]
     nontrivial = dims >= 2 and bool(o0.pkts)
     if f1:
@@ -173,6 +173,8 @@ def container(draw):
     # a capture on several interfaces (same time parameters): packets are spread over them; later interfaces may be described late
     c["ifaces"] = draw(st.sampled_from([1, 1, 1, 2, 3]))
     c["late_idb"] = draw(st.booleans())
+    # the first interface of the file may be one without packets and of another link type (0 = BSD loopback, 113 = Linux cooked)
+    c["idle_first"] = draw(st.sampled_from([None, None, None, 0, 113]))
     if c["ifaces"] == 1:
         # ... or further interfaces without packets, each with time parameters of its own
         c["idle_ifaces"] = [[draw(st.integers(0, 40)), draw(st.sampled_from([6, 9, 3, 0, 0x8A])), draw(st.sampled_from([0, 0, 3600]))]
